@@ -7,7 +7,7 @@ def run(R):
         R, "C09.sites", "EXEC",
         "every panic-capable, wrapping or truncating construct reachable from the execution entry points is "
         "mechanically discharged, discharged by a tabled reason (optionally with a re-proved guard), a known finding, or reported")
-    rules_sites.recursion_rule(R, "C09.recursion", "EXEC")
+    rules_sites.recursion_rule(R, "C09.recursion", "EXEC", guard_roots="PARSE")
     R.assume("termination, stack depth and memory exhaustion are not decided")
     R.assume("dependencies do not panic on arguments that satisfy their documented preconditions")
 
